@@ -4,4 +4,7 @@ package sim
 var Scenarios = map[string]func() *Scenario{
 	"C01": C01Scenario,
 	"C02": C02Scenario,
+	"C03": C03Scenario,
+	"C04": C04Scenario,
+	"C06": C06Scenario,
 }
